@@ -82,8 +82,11 @@ def impl_case(tab, c):
             b = payload_bytes(row, p)
             if b:
                 segs[row["cfg_key"]] = b.hex()
-    return {"family": c["family"], "rev": c["rev"], "mem": c["mem"], "init": c["init"], "segs": segs,
-            "parse": c.get("parse", [])}
+    out = {"family": c["family"], "rev": c["rev"], "mem": c["mem"], "init": c["init"], "segs": segs,
+           "parse": c.get("parse", [])}
+    if c.get("history"):
+        out["history"] = c["history"]
+    return out
 
 
 def coq_bytes(b):
@@ -442,6 +445,57 @@ def gen_roundtrip_cases(tab, triple, pay, rng, depth):
     return cases
 
 
+# ------------------------------------------------------------------------------------------------ object history
+def plan_history(tab, c, rng):
+    """A second export, an init offset change (and back), a replaced and a cleared segment on the SAME object."""
+    rows = tab["rows"]
+    statics = sorted({s["offset"] for s in rows if s["offset"] > 0})
+    r = c["init"] or 0
+    init2 = rng.choice([o for o in statics + [0] if o != r] or [None]) if statics else None
+    h = {"init2": init2, "replace": None, "clear": None}
+    cand = [k for k, p in enumerate(c["payloads"]) if p is not None and p[0] == "syn" and p[2] > 1]
+    if cand:
+        k = rng.choice(cand)
+        n = c["payloads"][k][2]
+        new = n - 1 if rows[k]["name"] in SIZED else n + 17
+        h["replace"] = {"label": rows[k]["name"], "cfg_key": rows[k]["cfg_key"], "hex": syn_bytes(150 + k, new).hex()}
+    opt = [k for k, p in enumerate(c["payloads"]) if p is not None and p[0] != "int" and rows[k]["hdr"]
+           and (h["replace"] is None or rows[k]["name"] != h["replace"]["label"])]
+    if opt:
+        k = rng.choice(opt)
+        h["clear"] = {"label": rows[k]["name"], "cfg_key": rows[k]["cfg_key"]}
+    return h
+
+
+def oracle_history(tab, c, data, res, fcb_supported):
+    """List of (signature, message, ops): every export of one object equals the export of a fresh object configured alike."""
+    out = []
+    hres = res.get("history")
+    if hres:
+        names = {"second": ("second-export-differs", "export()"), "reinit": ("stale-after-change", "init_offset"),
+                 "back": ("stale-after-change", "init_offset-restored"), "replace": ("stale-after-change", "segment-replaced"),
+                 "clear": ("stale-after-change", "segment-cleared")}
+        for key, (kind, what) in names.items():
+            v = hres.get(key)
+            if v is not None and not v["same"]:
+                out.append((f"history:{kind}:{what}", f"after {hres['ops']}: {key} export has {v['a']} bytes, the fresh object's {v['b']}"
+                            + (f", first difference at byte {v['first_diff']}" if "first_diff" in v else ""), hres["ops"]))
+    for mode, p in (res.get("parses") or {}).items():
+        if isinstance(p, list) or "reexport" not in p:
+            continue
+        if oracle_roundtrip(tab, c, data, res, mode, fcb_supported) is not None:
+            continue                              # the parse itself is already reported (or a recorded finding)
+        ops = ["load_from_config(cfg)", "data = export()" + (f"[{mode[3:]}:]" if mode.startswith("cut") else ""),
+               "b = BootableImage.parse(data, family, mem_type, revision)", "b.export()", "b.export()"]
+        if not p["reexport"]["same"]:
+            out.append(("history:second-export-differs:parse(data).export()",
+                        f"parse ({mode}) of {p['reexport']['b']} bytes re-exports {p['reexport']['a']} bytes"
+                        + (f", first difference at byte {p['reexport']['first_diff']}" if "first_diff" in p["reexport"] else ""), ops))
+        elif not p["reexport2"]["same"]:
+            out.append(("history:second-export-differs:parsed-object.export()", f"parse ({mode}): the second export of the parsed object differs", ops))
+    return out
+
+
 # ------------------------------------------------------------------------------------------------ running both sides
 def run_impl_parallel(payloads, timeout=3000):
     """payloads: list of payload dicts; one subprocess each, at most NPROC at a time."""
@@ -630,6 +684,13 @@ def run(tier):
              f"{sum(c['stream'] == 'roundtrip' for c in cases)} round-trip cases ({nskipped} triples without a buildable container)")
     import time
     t1 = time.time()
+    nh = 0
+    for i, c in enumerate(cases):
+        take = (c["stream"] == "roundtrip" and (c["why"] in ("full", "variant", "merged-from") or i % 3 == 0)) or \
+               (c["stream"] == "layout" and i % (7 if not thorough else 11) == 0)
+        if take:
+            c["history"] = plan_history(tables[c["table"]], c, rng)
+            nh += 1
     results = impl_cases(tables, cases)
     vlib.log(f"[C14] implementation side done in {time.time() - t1:.1f} s")
     datas = [[payload_bytes(row, p) for row, p in zip(tables[c["table"]]["rows"], c["payloads"])] for c in cases]
@@ -648,6 +709,15 @@ def run(tier):
                 rep.failing(o[0], "parse does not recover the merged segments: " + o[1],
                             {"kind": "impl-oracle", "api": f"BootableImage.parse(export(), family, mem_type, revision) [{mode}]",
                              "case": short(c), "observed": p if isinstance(p, list) else {"io": p["io"], "segs": [x[:5] for x in p["segs"]]}})
+    nhist = 0
+    for c, d, r in zip(cases, datas, results):
+        if not c.get("history") or r["load"][0] != "ok":
+            continue
+        nhist += len([k for k in ("second", "reinit", "back", "replace", "clear") if (r.get("history") or {}).get(k)]) + \
+            2 * len([1 for p in (r.get("parses") or {}).values() if isinstance(p, dict) and "reexport" in p])
+        for sig, msg, ops in oracle_history(tables[c["table"]], c, d, r, fcbs[(c["family"], c["rev"], c["mem"])]):
+            rep.failing(sig, "an export after a history of operations on one object differs from a fresh object's: " + msg,
+                        {"kind": "impl-oracle", "case": short(c), "history": c["history"], "operations": ops})
     # ---- correspondence with the Coq model
     ndis = nexcused = 0
     if model_ok:
@@ -720,6 +790,9 @@ def run(tier):
             total = len(uz(r["image"])) - (int(mode[3:]) if mode.startswith("cut") else 0)
             if start > 0 and total <= start and any(g for g in got):
                 n_short += 1
+    rep.add_stream("history: second export / init_offset change and back / segment replaced / segment cleared / parse(data).export() "
+                   "on one object vs a fresh object", nhist, nh, samples=[c["history"] for c in cases if c.get("history")][:3],
+                   exhaustive=False)
     rep.add_stream("database sweep: every (family, revision, memory type) layout checked well-formed in Coq and by the table oracle",
                    len(triples), len(tables), samples=[tables[0]["rows"]], exhaustive=True)
     shutil.rmtree(WORKDIR, ignore_errors=True)
